@@ -91,7 +91,7 @@ def locale_unit_stage(rep, sc, rng, fams, refs):
                     continue
                 lu = rng.choice(['', '', 'l', 'u'])
                 src = f.patb.decode('latin-1')
-                conf = 'maildir "~/md" {\n\tmatch header "Subject" /%s/%s move "~/dst/\\0"\n}\n' % (src, f.flags + lu)
+                conf = 'maildir "~/md" {\n\tmatch header "%s" /%s/%s move "~/dst/\\0"\n}\n' % (f.hname.decode('latin-1'), src, f.flags + lu)
                 c = ec.Case(conf, [(src, f.flags + lu)], m, 'new', '%d.host' % k, '0')
                 c.locale = l
                 cases.append(c)
